@@ -224,14 +224,77 @@ def inflight_worker(ctx, job):
     return res
 
 
+def inflight_fsx_worker(ctx, job):
+    """The same scenario under the ptrace controller: the two completion orders are FORCED by hold rules —
+    (A) the blocking task's write to the temp file is held until the other thread has dropped the writer (M2);
+    (B) the dropping thread is held at M1 until the task has completed and its pool thread waits again."""
+    import json as _json
+    from vlib import fsx
+    res = V.new()
+    flavour = job["flavour"]
+    a, b, c = tables.key_family()
+    cache = ctx.path("c14x-cache")
+    for keyed in (True, False):
+        for declared in (None, ref.MIB + 7):
+            for n in (8, 70000):
+                for hold in ("bg-write-until-M2", "M1-until-bg-idle"):
+                    for prior in ("cold", "warm"):
+                        fsutil.wipe(cache)
+                        if prior == "warm":
+                            wr.do_write(ctx.srv("sync"), cache, side="s", entry="oneshot", key=a, n=8, tag=5)
+                        before = fsutil.snapshot(cache)
+                        req = {"op": "aw_open", "cache": cache, "opts": {} if declared is None else {"size": declared}}
+                        if keyed:
+                            req["key"] = a
+                        prog = [req, {"op": "w_poll_write_drop", "h": {"ref": 0}, "data": {"gen": [n, 5]}, "delay_ms": 0, "linger_ms": 150}]
+                        pf = ctx.path("prog-c14x.json")
+                        with open(pf, "w") as fh:
+                            _json.dump(prog, fh)
+                        rep = fsx.run({"roots": [cache], "actors": [fsx.actor(flavour, "I", pf)], "timeout_ms": 15000, "hold": hold}, ctx.dir)
+                        res["evals"] += 1
+                        res["distinct"].add(V.h("fsx", flavour, keyed, declared, n, hold, prior))
+                        case = {"flavour": flavour, "keyed": keyed, "declared": declared, "n": n, "hold": hold, "prior": prior}
+                        replay = {"engine": "fsx", "mode": "in-flight abandonment (hold rules)", "case": case}
+                        if rep["status"] != "ok":
+                            V.violation(res, "inflight-fsx:%s:%s" % (hold, rep["status"]), "execution did not complete: %s %s" % (rep["status"], rep.get("error")), replay)
+                            continue
+                        out = fsx.replies(rep, 0)
+                        if len(out) < 2 or "ok" not in out[-1] or out[-1].get("panics"):
+                            V.violation(res, "inflight-fsx:%s:%s" % (hold, classify(out[-1]) if out else "no-reply"), "poll/drop did not return normally: %r" % (out[-1:],), replay)
+                            continue
+                        # which order actually happened (from the report): index of the temp-file write vs the M2 marker
+                        widx = next((s_["step"] for s_ in rep["steps"] if s_["sys"] in ("write", "pwrite64") and "/tmp/.tmp" in (s_.get("fd_path") or "")), None)
+                        m2 = next((m["after_steps"] for m in rep["markers"] if m["marker"] == "M2"), None)
+                        order = "no-write-step" if widx is None else ("write-after-drop" if m2 is not None and m2 <= widx else "write-before-drop")
+                        V.outcome(res, "fsx:%s:%s" % (hold, order))
+                        want = "write-after-drop" if hold == "bg-write-until-M2" else "write-before-drop"
+                        if order != want:
+                            raise fsx.TracerError("hold rule %s did not produce its order (got %s)" % (hold, order))
+                        after = fsutil.snapshot(cache)
+                        left = [x for x in (after or {}) if x.startswith("tmp/")]
+                        if left:
+                            V.violation(res, "inflight-fsx:temp-file-left:%s" % order, "temp file left after the abandoned writer's background work finished: %s" % left, replay)
+                        a1 = {k: v for k, v in (after or {}).items() if not k.startswith("tmp")}
+                        b1 = {k: v for k, v in (before or {}).items() if not k.startswith("tmp")}
+                        if a1 != b1:
+                            V.violation(res, "inflight-fsx:cache-changed:%s" % order, "abandoned in-flight writer changed the cache: %s" % sorted(set(a1) ^ set(b1)), replay)
+    fsutil.wipe(cache)
+    res["samples"].append({"kind": "in-flight under fsx hold rules", "flavour": flavour})
+    return res
+
+
+def _inflight(ctx, job):
+    return inflight_fsx_worker(ctx, job) if job.get("fsx") else inflight_worker(ctx, job)
+
+
 def main(tier, seed=0):
     import checks.c16 as c16
     t0 = time.time()
     quick = tier == "quick"
     old = c16.worker
-    c16.worker = inflight_worker
+    c16.worker = _inflight
     try:
-        total, merr_all = c16._collect(tier, [{"flavour": "astd"}, {"flavour": "tok"}], seed)
+        total, merr_all = c16._collect(tier, [{"flavour": "astd"}, {"flavour": "tok"}, {"flavour": "astd", "fsx": True}, {"flavour": "tok", "fsx": True}], seed)
     finally:
         c16.worker = old
     total["extra"] = {"runs": {}}
@@ -249,7 +312,7 @@ def main(tier, seed=0):
                            "[sync/async x keyed/by-address x bytes equal to d1 / fresh x declared size none/correct/wrong x dropped after creation/1 chunk/2 chunks/flush/close] + "
                            "rejected commits [size, integrity, declared > 1 MiB]; after every transition lookups, listing, tmp/ and the content file set are compared with the model; "
                            "plus in-flight abandonment (poll_write once, drop before/after the blocking task completes) on async-std and tokio",
-                      technique="explicit-state breadth-first model checking of on-disk states with abandonment episodes as actions; in-flight case: both completion orders forced by delay",
-                      assumptions=["in-flight case: the two orders (drop before / after the blocking task completes) are forced by a 60 ms delay, not by the ptrace scheduler",
+                      technique="explicit-state breadth-first model checking of on-disk states with abandonment episodes as actions; in-flight case: both completion orders forced by the ptrace controller (fsx hold rules)",
+                      assumptions=["in-flight case: the two orders (drop before / after the blocking task completes) are forced by fsx hold rules for plain writes (and checked from the step trace); for memory-mapped declared sizes, which issue no write system call, by a 60 ms delay",
                                    "data of a rejected commit may remain retrievable by address (it is mapped by no key)"],
                       seed=seed, capped=capped_any, jobs_done=len(runs) + 2, jobs_total=len(runs) + 2, exhaustive=not capped_any)
